@@ -225,6 +225,30 @@ def run_calls(task):
                                 if min(t) < p[0] or max(t) > p[0] + m - 1:
                                     continue
                             judge_call(col, name, box, p, lb)
+            # circuit constraints are decisive on permutations: all of them up to n = 6, random ones up to n = 10
+            import itertools
+
+            prnd = random.Random(task.get("seed", 0) + 99)
+            for name in task["names"]:
+                if name not in ("no_sub_cycle", "scc"):
+                    continue
+                for n in (4, 5, 6):
+                    for t in itertools.permutations(range(n)):
+                        judge_call(col, name, [[v, v] for v in t], [], lb)
+                for n in (7, 8, 9, 10):
+                    for _ in range(300 if task["tier"] == "quick" else 5000):
+                        t = list(range(n))
+                        prnd.shuffle(t)
+                        if prnd.random() < 0.5:
+                            # derangement-free shapes are rare at random: build products of two cycles explicitly
+                            k = prnd.randint(2, n - 2)
+                            perm = list(range(n))
+                            prnd.shuffle(perm)
+                            t = [0] * n
+                            for cyc in (perm[:k], perm[k:]):
+                                for i, v in enumerate(cyc):
+                                    t[v] = cyc[(i + 1) % len(cyc)]
+                        judge_call(col, name, [[v, v] for v in t], [], lb)
         else:
             rnd = random.Random(task["seed"])
             opts = task.get("opts") or {}
